@@ -27,6 +27,9 @@ PROBES = {
 }
 
 
+# reach probes of the "long-lived application" runs (DESIGN section 12.1), tracked like the others
+PROBES['C18'] = list(PROBES['C18']) + ['second-port-added-on-the-same-connection']
+
 class MiniSocks(Peer):
     """SOCKS5 server for the fallback part: answers success or a failure code"""
 
